@@ -192,3 +192,11 @@ Qed.
 Theorem C08_parse_table_offsets :
   forallb (fun r => match r with (kind, pre, _, off, _) => (kind =? 0) || (N.of_nat (length pre) =? off) end) cst_parse_table = true.
 Proof. exact parse_table_offsets. Qed.
+
+(* ---- source-text pins (generated by harness/pinsets.py) ---- *)
+(* every function of these modules is, text for text (comments and docstrings excluded), the one the models of this
+   property were written against and validated against: harness/translate/srcdigest_t.py, Src/Pin_*.v *)
+From OV Require Import Gen.SrcDigestGen Src.Pin_core_constraints Src.Pin_core_validator Src.Pin_core_holographic Src.Pin_core_schema_extractor Src.Pin_schemas_loader Src.Pin_mcp_validate.
+Theorem C08_pin_source_text :
+  src_core_constraints_pinned /\ src_core_validator_pinned /\ src_core_holographic_pinned /\ src_core_schema_extractor_pinned /\ src_schemas_loader_pinned /\ src_mcp_validate_pinned.
+Proof. exact (conj src_core_constraints_pinned_ok (conj src_core_validator_pinned_ok (conj src_core_holographic_pinned_ok (conj src_core_schema_extractor_pinned_ok (conj src_schemas_loader_pinned_ok src_mcp_validate_pinned_ok))))). Qed.
